@@ -28,18 +28,21 @@ type Conf struct {
 	Comp        ch.Compression
 	Level       int
 	ReadTimeout time.Duration
-	Hello       refproto.ServerHello
-	User, Pass  string
-	Database    string
-	QuotaKey    string
-	ClientName  string
-	Settings    []ch.Setting
-	Otel        bool
-	DebugLog    bool // a debug-level logger: the library's debug branches run
-	FrameChunk  int  // reference server: max payload bytes per compressed frame (0 = one frame per block)
-	LCKeyWidth  int  // reference server: LowCardinality key type at least this wide
-	MixMethods  int  // reference server: every n-th frame is compressed with another method (0: never)
-	frameNo     int
+	// HandshakeTimeout: 0 = the library's default (minutes). A short one is long
+	// past by the time a query's response pauses: nothing of it may linger
+	HandshakeTimeout time.Duration
+	Hello            refproto.ServerHello
+	User, Pass       string
+	Database         string
+	QuotaKey         string
+	ClientName       string
+	Settings         []ch.Setting
+	Otel             bool
+	DebugLog         bool // a debug-level logger: the library's debug branches run
+	FrameChunk       int  // reference server: max payload bytes per compressed frame (0 = one frame per block)
+	LCKeyWidth       int  // reference server: LowCardinality key type at least this wide
+	MixMethods       int  // reference server: every n-th frame is compressed with another method (0: never)
+	frameNo          int
 }
 
 func (c *Conf) Negotiated() int { return min(c.ClientRev, c.ServerRev) }
@@ -153,6 +156,7 @@ func (cf *Conf) options() ch.Options {
 		Compression:                  cf.Comp,
 		CompressionLevel:             ch.CompressionLevel(cf.Level),
 		ReadTimeout:                  cf.ReadTimeout,
+		HandshakeTimeout:             cf.HandshakeTimeout,
 		User:                         cf.User,
 		Password:                     cf.Pass,
 		Database:                     cf.Database,
